@@ -13,7 +13,7 @@ def check(F, rep, tier):
         try:
             ok, cex = flowtpl.implies(cond, "dirty or distance")
         except Exception as e:
-            rep.bad("R03.1", "unrecognised-shape:cond:" + nm, "cannot parse guard %r: %s" % (cond, e), None); continue
+            rep.undecided("R03.1", "unrecognised-shape:cond:" + nm, "cannot parse guard %r: %s" % (cond, e), None); continue
         if ok: rep.ok("R03.1", "%s[%s%s]: `%s` implies `dirty or distance` (nothing is bumped at a clean tag)" % (nm, mode, "," + sub if sub else "", cond), nontrivial_key="%s%s%s" % (nm, mode, sub))
         else: rep.bad("R03.1", "bump-at-clean-tag:%s[%s]" % (nm, mode), "%s can bump at a clean checkout exactly at the tag: guard `%s` is true for %s" % (nm, cond, cex), None)
     rep.floor("R03.1", "bump guards examined", len(guards), 8)
@@ -55,7 +55,7 @@ def check(F, rep, tier):
     odt = None
     if rep.anchor("R03.3", "FlowArgs::override_dirty", od):
         odt = override_dirty_table(F, od[0])
-        if odt is None: rep.bad("R03.3", "unrecognised-shape:override_dirty", "cannot extract the override_dirty decision table", od[0].where())
+        if odt is None: rep.undecided("R03.3", "unrecognised-shape:override_dirty", "cannot extract the override_dirty decision table", od[0].where())
         else: rep.fn_seen(od[0])
     if ts is not None and odt is not None:
         printed = {"standard_base_schema": set(), "standard_base_prerelease_schema": {"pre"}, "standard_base_prerelease_post_schema": {"pre", "post"}, "standard_base_prerelease_post_dev_schema": {"pre", "post", "dev"}}
